@@ -440,8 +440,8 @@ def record_repo_tests(tag, outdir):
         return info, []
     trace = os.path.join(outdir, f"{tag}.ndjson")
     req = trace + ".primreq.json"
-    # at most 30 000 distinct events (a test suite that generates inputs in loops): validation stays within minutes
-    c = subprocess.run([hbin, "convert", "--in", raw, "--out", trace, "--primreq", req, "--max-events", "30000"], stdout=subprocess.PIPE,
+    # at most 15 000 distinct events (a test suite that generates inputs in loops): validation stays within minutes
+    c = subprocess.run([hbin, "convert", "--in", raw, "--out", trace, "--primreq", req, "--max-events", "15000"], stdout=subprocess.PIPE,
                        stderr=subprocess.STDOUT, text=True)
     if c.returncode != 0:
         raise ToolError(f"[{tag}] convert failed: {c.stdout[-2000:]}")
